@@ -621,33 +621,39 @@ def check(prop, tier, seed, replay=None):
     # disturbed by scheduling hiccups; a failure that does not reproduce is recorded, not reported)
     flaky = 0
     if not replay:
-        confirmed, seen_cases = [], {}
-        for eng, ops, mcase, mline in impl_fail:
-            key = (eng, mcase)
-            if key not in seen_cases:
-                # at most a handful of isolation re-runs; once one reproduces the rest is accepted
-                if any(seen_cases.values()) or len(seen_cases) >= 8:
-                    seen_cases[key] = True
+        def reproduces(eng, text, kind):
+            # twice in a row, on its own: a scheduling hiccup does not repeat, a violation does
+            if not still_fails(eng, text, prop, kind):
+                return False
+            time.sleep(0.3)
+            return still_fails(eng, text, prop, kind)
+
+        def confirm(items, case_of, kind):
+            """Re-runs failing cases in isolation until one reproduces (then the rest is accepted as
+            found); cases that do not reproduce are dropped; after 24 attempts without a single
+            reproduction nothing of this kind is reported."""
+            nonlocal flaky
+            verdicts, any_ok, attempts, out = {}, False, 0, []
+            for it in items:
+                eng, ops, case = it[0], it[1], case_of(it)
+                key = (eng, case)
+                if key not in verdicts:
+                    if not case.startswith("#case") or any_ok:
+                        verdicts[key] = True
+                    elif attempts >= 24:
+                        verdicts[key] = False
+                    else:
+                        attempts += 1
+                        verdicts[key] = reproduces(eng, case_text(ops, case), kind)
+                        any_ok = any_ok or verdicts[key]
+                if verdicts[key]:
+                    out.append(it)
                 else:
-                    seen_cases[key] = still_fails(eng, case_text(ops, mcase), prop, "monitor") if mcase.startswith("#case") else True
-            if seen_cases[key]:
-                confirmed.append((eng, ops, mcase, mline))
-            else:
-                flaky += 1
-        impl_fail = confirmed
-        confirmed = []
-        for eng, ops, d in corr_broken:
-            key = (eng, d[0], "d")
-            if key not in seen_cases:
-                if any(v for k, v in seen_cases.items() if len(k) == 3) or len(seen_cases) >= 16:
-                    seen_cases[key] = True
-                else:
-                    seen_cases[key] = still_fails(eng, case_text(ops, d[0]), prop, "disagree") if d[0].startswith("#case") else True
-            if seen_cases[key]:
-                confirmed.append((eng, ops, d))
-            else:
-                flaky += 1
-        corr_broken = confirmed
+                    flaky += 1
+            return out
+
+        impl_fail = confirm(impl_fail, lambda it: it[2], "monitor")
+        corr_broken = confirm(corr_broken, lambda it: it[2][0], "disagree")
         if flaky:
             verdict["notes"].append("%d failing case(s) did not reproduce when re-run in isolation (timing); not reported" % flaky)
     # 6. verdict
